@@ -107,7 +107,12 @@ def main(argv=None):
     # 3. classify
     violations, known_hits, inconclusive, errors = [], [], [], []
     confirmed, nontrivial = 0, 0
-    os.makedirs(os.path.join(ROOT, "evidence", "replay"), exist_ok=True)
+    rdir = os.path.join(ROOT, "evidence", "replay")
+    os.makedirs(rdir, exist_ok=True)
+    if not a.only:
+        for f in os.listdir(rdir):
+            if f.startswith(prop + "_"):
+                os.unlink(os.path.join(rdir, f))
     for o in obs:
         r = results[o.id]
         st = r.get("status")
